@@ -1,34 +1,47 @@
 /-
 Model for property C08 (formatting never changes the program), expression / literal fragment.
 Core Lean only (no Mathlib) so that the line-protocol driver links natively.
+Line numbers refer to /repo after the C08 `fix:` commits b0a5193, 7a6d532, 8067f9b, 9730edb, 8fbb1c9.
 
 Printer side (`crates/samlang-printer/src/source_printer.rs`, `crates/samlang-ast/src/source.rs`):
-  * `BinOp.pprec`     = `BinaryOperator::precedence`                       (source.rs:524-543)
+  * `BinOp.pprec`     = `BinaryOperator::precedence`                       (source.rs:525-543)
   * `Expr.prec`       = `E::precedence`                                    (source.rs:698-708)
   * `sub`             = `create_doc_for_subexpression_considering_precedence_level`
                                                                            (source_printer.rs:217-234)
-  * `printE`          = `create_doc_without_preceding_comment`, arms `Unary` (593-602) and
-                        `Binary` (605-676: left-operand rule, "commutative operator" shortcut for
-                        the right operand with the `- / %` exemption, "safest rule")
+  * `printE`          = `create_doc_without_preceding_comment` (578-760): arms Literal/LocalId/ClassId/
+                        Tuple/Block (`atom`), FieldAccess/MethodAccess/Call through
+                        `create_chainable_ir_docs` (430-484: the base of a chain is parenthesised iff
+                        its precedence is > 1; `post`), `Unary` (604-616), `Binary` (617-700:
+                        left-operand rule, same-associative-operator shortcut, "safest rule"),
+                        IfElse / Match (opaque, `ifElse` / `matchE`), `Lambda` (725-757: the body is
+                        never parenthesised since nothing has precedence > 12).
     The result is the *token sequence* of the output (the layout engine only inserts blanks and
     line breaks between tokens; that part belongs to C09).
 Parser side (`crates/samlang-parser/src/source_parser.rs`):
-  * `parseLevel k`    = `parse_disjunction` (k=0, 792) … `parse_conjunction` (1, 822),
-                        `parse_comparison` (2, 852), `parse_term` (3, 891), `parse_factor` (4, 923),
-                        `parse_concat` (5, 956), `parse_unary_expression` (k ≥ 6, 983)
-  * `parseLoop k`     = the `while`/`loop` of `parse_*_with_start` of that level
+  * `parseTop`        = `parse_expression` = `parse_match` (697) / `parse_if_else_or_higher_precedence`
+                        (752): `match`/`if` are only recognised here, else `parse_disjunction`
+  * `parseLevel k`    = `parse_disjunction` (k=0, 797), `parse_conjunction` (1, 827),
+                        `parse_comparison` (2, 857), `parse_term` (3, 896: `+ - ::`),
+                        `parse_factor` (4, 929), `parse_unary_expression` (5, 962),
+                        `parse_function_call_or_field_access` (k ≥ 6, 1001)
+  * `parseLoop k`     = the `while`/`loop` of `parse_*_with_start` of that level; for k = 6 the
+                        postfix loop over `.name` / `(args)` (1006-1068)
   * `BinOp.plevel`    = which of these loops consumes the operator token
-  * `parseBase`       = `parse_base_expression` restricted to single-token atoms and the
-                        "nested expression" case `( e )`, whose parentheses are dropped (1429-1442)
-  * `parseUnary`      : note that the argument of `!`/`-` is parsed by
+  * `parseBase`       = `parse_base_expression` (1083): single-token atoms, `( e )` whose parentheses
+                        are dropped (1407-1420), lambda `(params) -> body` with
+                        body = `parse_expression`
+  * `parseUnary`      : the argument of `!`/`-` is parsed by
                         `parse_function_call_or_field_access`, *not* recursively by
-                        `parse_unary_expression` (988, 1004).
+                        `parse_unary_expression` (967, 983).
+Opaque parts (one token each; their inside is reached only by the reparse oracle): the member name
+and type arguments of a field access and the argument list of a call (`post p`), tuples and blocks
+(`atom`), the whole `if … else …` and `match … { … }` expressions, the parameter list of a lambda.
 String literals:
   * `lexStr`          = `lex_str_lit_opt` (lexer.rs:317-355)
-  * `unescapeQuotes`  = `utils::unescape_quotes` (source_parser.rs:2210-2212), applied at 1515-1529
-  * `printStr`        = the `Literal::String` arm of the printer (source_printer.rs:581-583)
+  * `unescapeQuotes`  = `utils::unescape_quotes` (source_parser.rs), applied to string tokens
+  * `printStr`        = the `Literal::String` arm of the printer (source_printer.rs:587-595)
 Int literals / `-`:
-  * `mergeMinInt`     = `TokenProducer::process_raw_token` (lexer.rs:732-766) for in-range tokens
+  * `mergeMinInt`     = `TokenProducer::process_raw_token` (lexer.rs) for in-range tokens
 -/
 namespace SamVerif.Fmt
 
@@ -37,7 +50,7 @@ inductive BinOp where
   | mul | div | mod | plus | minus | concat | lt | le | gt | ge | eq | ne | and | or
   deriving DecidableEq, Repr, Inhabited
 
-/-- `BinaryOperator::precedence` (source.rs:524-543): the table the *printer* uses. -/
+/-- `BinaryOperator::precedence` (source.rs:525-543): the table the *printer* uses. -/
 def BinOp.pprec : BinOp → Nat
   | .mul | .div | .mod => 0
   | .plus | .minus | .concat => 1
@@ -46,40 +59,57 @@ def BinOp.pprec : BinOp → Nat
   | .or => 4
 
 /-- The level at which the *parser* consumes the operator: 0 `parse_disjunction_with_start`,
-1 conjunction, 2 comparison, 3 term (`+ -`), 4 factor (`* / %`), 5 concat (`::`).
-`::` binds tighter than `* / %` in the parser (parse_factor calls parse_concat, 923-981). -/
+1 conjunction, 2 comparison, 3 term (`+ - ::`), 4 factor (`* / %`).
+(Before fix 8067f9b `::` had its own level between factor and unary, finding C08-F4.) -/
 def BinOp.plevel : BinOp → Nat
   | .or => 0
   | .and => 1
   | .lt | .le | .gt | .ge | .eq | .ne => 2
-  | .plus | .minus => 3
+  | .plus | .minus | .concat => 3
   | .mul | .div | .mod => 4
-  | .concat => 5
 
 /-- `expr::UnaryOperator`. -/
 inductive UOp where
   | not | neg
   deriving DecidableEq, Repr, Inhabited
 
-/-- Expression fragment. `atom n` stands for any single-token expression of printer precedence 0
-(literal, identifier, class id, `this`); the driver numbers distinct token texts. -/
+/-- Expression fragment.
+`atom n`: any delimited expression of printer precedence 0 or 1 that is a single unit for the
+parser's base level (literal, identifier, class id, `this`, tuple, block); the two precedences
+behave identically in every parenthesisation test (`> 1`, `≥ 2`, `≥ 4…8`).
+`post e p`: field access, method access or call on `e` (`p` numbers the opaque postfix text).
+`ifElse k`, `matchE k`: opaque if-else / match expression. `lambda k body`: `(params) -> body`. -/
 inductive Expr where
   | atom (a : Nat)
+  | post (e : Expr) (p : Nat)
   | unary (u : UOp) (e : Expr)
   | binary (o : BinOp) (l r : Expr)
+  | ifElse (k : Nat)
+  | matchE (k : Nat)
+  | lambda (k : Nat) (body : Expr)
   deriving DecidableEq, Repr, Inhabited
 
 /-- `E::precedence` (source.rs:698-708). -/
 def Expr.prec : Expr → Nat
   | .atom _ => 0
+  | .post _ _ => 1
   | .unary _ _ => 2
   | .binary o _ _ => 4 + o.pprec
+  | .ifElse _ => 10
+  | .matchE _ => 11
+  | .lambda _ _ => 12
 
-/-- Tokens of the fragment. Unary `-` and binary `-` are the same token (`TokenOp::Minus`). -/
+/-- Tokens of the fragment. Unary `-` and binary `-` are the same token (`TokenOp::Minus`).
+`post p`: `.name<targs>` or `(args)`; `kwIf k` / `kwMatch k`: a whole if-else / match expression;
+`lam k`: `(params) ->`. -/
 inductive Tok where
   | lp | rp | bang
   | op (o : BinOp)
   | atom (a : Nat)
+  | post (p : Nat)
+  | kwIf (k : Nat)
+  | kwMatch (k : Nat)
+  | lam (k : Nat)
   deriving DecidableEq, Repr, Inhabited
 
 def paren (ts : List Tok) : List Tok := Tok.lp :: (ts ++ [Tok.rp])
@@ -99,62 +129,85 @@ def utok : UOp → Tok
   | .not => .bang
   | .neg => .op .minus
 
-/-- operators exempted from the right-operand shortcut (source_printer.rs:640). -/
-def BinOp.noShortcut : BinOp → Bool
-  | .minus | .div | .mod => true
+/-- the right-operand shortcut (source_printer.rs:649-676, after fixes 9730edb and 8fbb1c9,
+finding C08-F1): the right operand applies the same operator as its parent, that operator is one
+of `+ * && ||`, and the right operand's own left operand is not on that precedence level. -/
+def shortcutOk (o : BinOp) (r : Expr) : Bool :=
+  match r with
+  | .binary o' r1 _ =>
+    (o == .plus || o == .mul || o == .and || o == .or) && o' == o && r1.prec != 4 + o.pprec
   | _ => false
 
-/-- `create_doc_without_preceding_comment` (source_printer.rs:572-737), arms Literal/LocalId/
-ClassId, Unary, Binary. -/
+/-- `create_doc_without_preceding_comment` (source_printer.rs:578-760). -/
 def printE : Expr → List Tok
   | .atom a => [.atom a]
-  | .unary u e => utok u :: sub 2 false e (printE e)
+  | .post e p => sub 1 false e (printE e) ++ [.post p]     -- create_chainable_ir_docs, base case
+  | .unary u e => utok u :: sub 2 true e (printE e)         -- `true` since fix 7a6d532 (C08-F3)
   | .binary o l r =>
     let p := 4 + o.pprec
     if l.prec = p then
-      -- "Since we are doing left to right evaluation, this is safe." (622-636)
+      -- "Since we are doing left to right evaluation, this is safe."
       printE l ++ [.op o] ++ sub p true r (printE r)
-    else if r.prec = p ∧ o.noShortcut = false then
-      -- "For the commutative operators, we can remove parentheses." (637-656)
+    else if r.prec = p ∧ shortcutOk o r = true then
+      -- same associative operator: parentheses removed
       sub p true l (printE l) ++ [.op o] ++ printE r
     else
-      -- "Safest rule" (657-675)
+      -- "Safest rule"
       sub p true l (printE l) ++ [.op o] ++ sub p true r (printE r)
+  | .ifElse k => [.kwIf k]
+  | .matchE k => [.kwMatch k]
+  | .lambda k body => .lam k :: sub 12 false body (printE body)
 
 abbrev PResult := Option (Expr × List Tok)
 
 mutual
-/-- `parse_base_expression` on the fragment: a single-token atom, or `( e )` (unwrapped). -/
+/-- `parse_expression`: `match` and `if` are recognised only here. -/
+def parseTop : Nat → List Tok → PResult
+  | 0, _ => none
+  | _ + 1, .kwMatch k :: ts => some (.matchE k, ts)
+  | _ + 1, .kwIf k :: ts => some (.ifElse k, ts)
+  | f + 1, ts => parseLevel f 0 ts
+/-- `parse_base_expression` on the fragment. -/
 def parseBase : Nat → List Tok → PResult
   | 0, _ => none
   | _ + 1, .atom a :: ts => some (.atom a, ts)
+  | f + 1, .lam k :: ts =>
+    match parseTop f ts with
+    | some (body, r) => some (.lambda k body, r)
+    | none => none
   | f + 1, .lp :: ts =>
-    match parseLevel f 0 ts with
+    match parseTop f ts with
     | some (e, .rp :: ts') => some (e, ts')
     | _ => none
   | _ + 1, _ => none
-/-- `parse_unary_expression` (983-1020). -/
+/-- `parse_unary_expression`. -/
 def parseUnary : Nat → List Tok → PResult
   | 0, _ => none
   | f + 1, .bang :: ts =>
-    match parseBase f ts with
+    match parseLevel f 6 ts with
     | some (e, r) => some (.unary .not e, r)
     | none => none
   | f + 1, .op .minus :: ts =>
-    match parseBase f ts with
+    match parseLevel f 6 ts with
     | some (e, r) => some (.unary .neg e, r)
     | none => none
-  | f + 1, ts => parseBase f ts
-/-- `parse_disjunction` … `parse_concat` (level k ≤ 5), `parse_unary_expression` (k ≥ 6). -/
+  | f + 1, ts => parseLevel f 6 ts
+/-- `parse_disjunction` … `parse_factor` (k ≤ 4), `parse_unary_expression` (k = 5),
+`parse_function_call_or_field_access` (k ≥ 6). -/
 def parseLevel : Nat → Nat → List Tok → PResult
   | 0, _, _ => none
   | f + 1, k, ts =>
-    if k ≥ 6 then parseUnary f ts
+    if k ≥ 6 then
+      match parseBase f ts with
+      | none => none
+      | some (e, r) => parseLoop f 6 e r
+    else if k = 5 then parseUnary f ts
     else
       match parseLevel f (k + 1) ts with
       | none => none
       | some (e, r) => parseLoop f k e r
-/-- the loop of `parse_*_with_start` of level `k`: left-associative accumulation. -/
+/-- the loop of `parse_*_with_start` of level `k`: left-associative accumulation of binary
+operators (k ≤ 4) or of postfix items (k = 6). -/
 def parseLoop : Nat → Nat → Expr → List Tok → PResult
   | 0, _, _, _ => none
   | f + 1, k, e, .op o :: ts =>
@@ -163,28 +216,36 @@ def parseLoop : Nat → Nat → Expr → List Tok → PResult
       | none => none
       | some (e2, r) => parseLoop f k (.binary o e e2) r
     else some (e, .op o :: ts)
+  | f + 1, k, e, .post p :: ts =>
+    if k = 6 then parseLoop f k (.post e p) ts else some (e, .post p :: ts)
   | _ + 1, _, e, ts => some (e, ts)
 end
 
 /-- parse a complete token sequence with the given recursion budget. -/
 def parseFuel (f : Nat) (ts : List Tok) : Option Expr :=
-  match parseLevel f 0 ts with
+  match parseTop f ts with
   | some (e, []) => some e
   | _ => none
 
-/-- Budget used by the driver (and by the concrete witnesses): recursion depth is at most
-nine calls per token. -/
-def fuelFor (ts : List Tok) : Nat := 16 * ts.length + 16
+/-- Recursion budget of `parseE`; sufficient for every printed expression (`fuel_suffices`). -/
+def fuelFor (ts : List Tok) : Nat := 128 * ts.length + 128
 
 /-- `parse_expression` on a complete token sequence of the fragment. -/
 def parseE (ts : List Tok) : Option Expr := parseFuel (fuelFor ts) ts
 
+/-- may the expression stand as an operand without parentheses at all? (`if`/`match` are only
+recognised by `parse_expression`; a lambda swallows everything to its right.) -/
+def Expr.operandOk : Expr → Bool
+  | .ifElse _ | .matchE _ | .lambda _ _ => false
+  | _ => true
+
 /-- The parser-side level at which an expression stands without parentheses:
-7 base, 6 unary, else the level of its operator. -/
+6 base / postfix, 5 unary, else the level of its operator (0 for the top-only forms). -/
 def Expr.lvl : Expr → Nat
-  | .atom _ => 7
-  | .unary _ _ => 6
+  | .atom _ | .post _ _ => 6
+  | .unary _ _ => 5
   | .binary o _ _ => o.plevel
+  | .ifElse _ | .matchE _ | .lambda _ _ => 0
 
 /-- does the printer parenthesise the left / right operand of `binary o l r`? (a restatement of
 the three cases of `printE`, see `printE_binary` in `Lemmas/Fmt.lean`). -/
@@ -192,19 +253,24 @@ def lParen (o : BinOp) (l : Expr) : Bool :=
   if l.prec = 4 + o.pprec then false else needParen (4 + o.pprec) true l
 def rParen (o : BinOp) (l r : Expr) : Bool :=
   if l.prec = 4 + o.pprec then needParen (4 + o.pprec) true r
-  else if r.prec = 4 + o.pprec ∧ o.noShortcut = false then false
+  else if r.prec = 4 + o.pprec ∧ shortcutOk o r = true then false
   else needParen (4 + o.pprec) true r
 
 /-- Side condition of the partial round-trip theorem: wherever the printer leaves an operand
 *without* parentheses, the parser's level structure reads it back as that operand:
 a bare left operand must stand at the parent's level or tighter (left associativity),
-a bare right operand strictly tighter, a bare operand of `!`/`-` must be a base expression. -/
+a bare right operand strictly tighter, a bare operand of `!`/`-` or base of a postfix chain must
+be a base/postfix expression, and `if`/`match`/lambda are never bare operands. -/
 def RT : Expr → Bool
   | .atom _ => true
-  | .unary _ e => RT e && (needParen 2 false e || decide (e.lvl ≥ 7))
+  | .ifElse _ => true
+  | .matchE _ => true
+  | .lambda _ body => RT body
+  | .post e _ => RT e && (needParen 1 false e || (e.operandOk && decide (e.lvl ≥ 6)))
+  | .unary _ e => RT e && (needParen 2 true e || (e.operandOk && decide (e.lvl ≥ 6)))
   | .binary o l r =>
-    RT l && RT r && (lParen o l || decide (l.lvl ≥ o.plevel)) &&
-      (rParen o l r || decide (r.lvl > o.plevel))
+    RT l && RT r && (lParen o l || (l.operandOk && decide (l.lvl ≥ o.plevel))) &&
+      (rParen o l r || (r.operandOk && decide (r.lvl > o.plevel)))
 
 /-! ## String literals -/
 
@@ -247,8 +313,15 @@ def unescapeQuotes : List Char → List Char
   | c :: rest => c :: unescapeQuotes rest
   | [] => []
 
-/-- printer arm `Literal::String(s)`: `"` + s + `"`, no escaping (source_printer.rs:581-583). -/
-def printStr (s : List Char) : List Char := '"' :: (s ++ ['"'])
+/-- `s.replace('"', "\\\"")` -/
+def escapeQuotes : List Char → List Char
+  | '"' :: rest => '\\' :: '"' :: escapeQuotes rest
+  | c :: rest => c :: escapeQuotes rest
+  | [] => []
+
+/-- printer arm `Literal::String(s)`: `"` + s with every `"` escaped + `"`
+(source_printer.rs:581-590; the escaping was added by fix b0a5193, finding C08-F2). -/
+def printStr (s : List Char) : List Char := '"' :: (escapeQuotes s ++ ['"'])
 
 /-- what the parser stores for a string-literal token. -/
 def parseStr (input : List Char) : Option (List Char × List Char) :=
